@@ -1,10 +1,12 @@
 /-
-C15 driver: runs a schedule on the model.  stdin: optional first line `fix` (the variant of the current code),
+C15 driver: runs a schedule on the model.  stdin: optional first line `fix` (the variant of the current code) or
+`repaired` (the repaired handshake of ModelR.lean: no guard, acts hostInt / hostRes instead of hostP / hostS),
 then lines `<tid> <act>` (act ∈ poll callPrim alloc setGlobal spawn finish gc step spurious hostP hostS),
 `reset` ends a schedule.  Per line: `ok <guard 0/1> <pc of every thread>` or `bad`.  Per schedule:
 `spec scanOk=… envOk=… stopper=… guardOk=… steps=…`.
 -/
 import SteelVerif.C15.Model
+import SteelVerif.C15.ModelR
 open SteelVerif.C15
 
 def parseAct : String → Option Act
@@ -20,6 +22,44 @@ def showState (s : State) : String :=
   String.intercalate "|" (s.threads.map fun th =>
     s!"{pcName th.pc},p={th.paused},c={th.ctx},s={th.scanned},e={repr th.env}")
 
+/-! The repaired model (`ModelR.lean`): first line `repaired`; acts as above plus `hostInt`, `hostRes`; there is no guard. -/
+
+def parseActR : String → Option R.Act
+  | "poll" => some .poll | "callPrim" => some .callPrim | "alloc" => some .alloc
+  | "setGlobal" => some .setGlobal | "spawn" => some .spawn | "finish" => some .finish
+  | "gc" => some .gc | "step" => some .step | "spurious" => some .spurious
+  | "hostInt" => some .hostInt | "hostRes" => some .hostRes
+  | _ => none
+
+def showStateR (s : R.State) : String :=
+  String.intercalate "|" ((List.range s.n).map fun u =>
+    let th := s.th u
+    s!"{(toString (repr th.pc)).replace "SteelVerif.C15.R." ""},stop={th.stop},intr={th.intr},c={th.ctx},s={th.scanned},e={repr th.env}")
+
+partial def loopR (h : IO.FS.Stream) (s : R.State) (n : Nat) : IO Unit := do
+  let line ← h.getLine
+  let spec := s!"spec scanOk={s.scanOk} envOk={s.envOk} noRound={s.noRound} steps={n}"
+  if line.isEmpty then
+    if n > 0 then IO.println spec
+    return
+  let l := line.trimAscii.toString
+  if l == "reset" then
+    IO.println spec
+    loopR h R.init 0
+  else if l.isEmpty || l.startsWith "#" then loopR h s n
+  else
+    match l.splitOn " " with
+    | [t, a] =>
+      match t.toNat?, parseActR a with
+      | some t, some a =>
+        match R.step s t a with
+        | some s' =>
+          IO.println s!"ok 1 {showStateR s'}"
+          loopR h s' (n + 1)
+        | none => IO.println "bad"; loopR h s n
+      | _, _ => IO.println "bad"; loopR h s n
+    | _ => IO.println "bad"; loopR h s n
+
 partial def loop (h : IO.FS.Stream) (s0 s : State) (gok : Bool) (n : Nat) : IO Unit := do
   let line ← h.getLine
   if line.isEmpty then
@@ -28,6 +68,7 @@ partial def loop (h : IO.FS.Stream) (s0 s : State) (gok : Bool) (n : Nat) : IO U
     return
   let l := line.trimAscii.toString
   if l == "fix" then loop h initFix initFix true 0
+  else if l == "repaired" then loopR h R.init 0
   else if l == "reset" then
     IO.println s!"spec scanOk={s.scanOk} envOk={s.envOk} stopper={repr s.stopper} guardOk={gok} steps={n}"
     loop h s0 s0 true 0
